@@ -91,3 +91,13 @@ Proof.
   - intros. eapply tree_get_is_lookup; eauto.
   - intros a b (La & Ba) (Lb & Bb). split; [apply key_lt_be; auto; congruence|apply be_inj; auto; congruence].
 Qed.
+
+(* non-vacuity: three 4-byte keys inserted out of order; both sides give the same sorted association list *)
+Example tree_bridge_example :
+  let n1 := mkNode [0; 0; 1; 0] 0 false in let n2 := mkNode [0; 0; 0; 255] 4 false in let n3 := mkNode [0; 0; 0; 7] 8 true in
+  key_ok 4 (n_key n1) /\ Forall (fun m => key_ok 4 (n_key m)) [n2; n3] /\
+  map enc (tree_insert n1 (tree_insert n2 (tree_insert n3 []))) = [(7, 8); (255, 4); (256, 0)] /\
+  TreeProofs.sorted_insert (TreeProofs.sorted_insert (TreeProofs.sorted_insert [] 7 8) 255 4) 256 0 = [(7, 8); (255, 4); (256, 0)].
+Proof.
+  simpl. unfold key_ok, bytes_ok. repeat split; try reflexivity; repeat constructor; simpl; lia.
+Qed.
